@@ -100,9 +100,24 @@ def coq_gate():
     return bad
 
 
-def coq_make(timeout=1500):
+def gen_coqproject():
+    import glob
+    lines = []
+    for f in sorted(glob.glob(os.path.join(COQ, "project.d", "*.list"))):
+        for l in open(f):
+            l = l.rstrip("\n")
+            if l.strip() and l not in lines:
+                lines.append(l)
+    new = "\n".join(lines) + "\n"
+    cp = os.path.join(COQ, "_CoqProject")
+    if not os.path.exists(cp) or open(cp).read() != new:
+        open(cp, "w").write(new)
+
+
+def coq_make(timeout=3000):
     """Full .vo build (never -vos).  Returns (ok, log)."""
     with Lock("coq"):
+        gen_coqproject()
         if not os.path.exists(os.path.join(COQ, "Makefile")) or \
                 os.path.getmtime(os.path.join(COQ, "Makefile")) < os.path.getmtime(os.path.join(COQ, "_CoqProject")):
             subprocess.run(["coq_makefile", "-f", "_CoqProject", "-o", "Makefile"], cwd=COQ, check=True,
